@@ -5,7 +5,8 @@ import Fs.Model.Crash
 Request:  `crash  run  <history>  <k|-|@i.n>`   (k = kill after k engine calls; `-` = run to the end, clean exit;
             `@i.n` = kill after statements 0..i-1 and the first n non-read engine calls of statement i – robust to
             added/removed read-only calls)
-          `crash  run2  <history1>  <k1>  <history2>  <k2>`  (second process on the directory left by the first)
+          `crash  run2  <history1>  <k1>  <history2>  <k2>`  (second process on the directory left by the first; the
+            connect of history2 creates its schema iff the first process did not leave it)
   history := `;`-separated statements
      `N<mkDb><mkSchema>.<s>` connect(database 0, schema s) · `T<t>.<cmt|->.<len|->` CREATE TABLE · `D<t>` DROP TABLE ·
      `M<t>.<c>` COMMENT ON · `S<s>` CREATE SCHEMA · `V<v>` CREATE VIEW · `B<d>` CREATE DATABASE ·
@@ -105,6 +106,10 @@ def handle : List String → String
     | some h1, some h2 =>
       let log1 := recover (crash Eng.init h1 (addrK h1 k1))
       let e1 : Eng := { disk := log1, tx := none }
+      -- the second process connects on whatever the first one left: it creates the schema only if it is not there
+      let h2 := h2.map fun st => match st with
+        | .connect mkDb _ sc => .connect mkDb (!(dump log1).schemas.contains sc) sc
+        | st => st
       s!"mid={encDump (dump log1)}\timpl={encDump (dump (recover (crash e1 h2 (addrK h2 k2))))}"
     | _, _ => "bad-op"
   | _ => "bad-op"
